@@ -30,6 +30,7 @@ Reading of the statements below.
 import AutomataVerif.Proofs.CtorNth
 import AutomataVerif.Proofs.CtorPrefix
 import AutomataVerif.Proofs.CtorKMPDfa
+import AutomataVerif.Proofs.CtorACDfa
 
 namespace AV.Props.C15
 open AV AV.Ctor
@@ -502,9 +503,9 @@ The models (`fromSubstrings`: trie with labels in insertion order, failure links
 absorbing end state unless suffix mode; `fromFiniteLanguage`: sorted insertion into a trie with
 a signature register and compression of the non-shared suffix of the previous word,
 `_to_complete` with trap `0`) are executable and tied to the code by the correspondence run.
-Their general theorems are stated here in full (`…_full`); what is proved at this stage is
-listed after each statement (`…_partial`), together with the counter-examples of the two open
-findings. -/
+`from_substrings` is proved in general below; for `from_finite_language` the general theorem is
+stated in full (`…_full`) and what is proved at this stage is listed after it (`…_partial`).
+The counter-examples of the open findings are theorems too. -/
 
 /-- The verdict of the DFA returned by a constructor call (`none` if the call raised). -/
 def verdict (r : Res (DFA σ α)) (w : List α) : Option Bool :=
@@ -518,29 +519,39 @@ def size (r : Res (DFA σ α)) : Option Nat :=
   | .ok d => some d.states.length
   | .error _ => none
 
-/-- **Full statement for `from_substrings`.**  For every alphabet, every set of patterns over
-it (in every iteration order), not containing the empty pattern in suffix mode, and both values
-of both flags: a valid complete DFA accepting exactly the words over `Σ` that contain (resp.
-end with) one of the patterns — or exactly the others when `contains = False`.  (No minimality
-is promised by the documentation.) -/
-def C15_from_substrings_full : Prop :=
-  ∀ (α : Type) [DecidableEq α] (syms : List α) (pats : List (List α)) (contains sf : Bool),
-    (∀ p ∈ pats, ∀ c ∈ p, c ∈ syms) → (sf = true → [] ∉ pats) →
+/-- `from_substrings(Σ, S, contains, must_be_suffix)` (Aho–Corasick) for every duplicate-free
+alphabet, every list of patterns over it — in **every** insertion order, with patterns that are
+prefixes / suffixes / infixes of one another, with the empty pattern in substring mode — and
+both values of both flags (the empty pattern excluded in suffix mode, finding F10b): the trie,
+the failure links and the output links are built without error and the result is a valid
+complete DFA accepting exactly the words over `Σ` that contain (resp. end with) one of the
+patterns, or exactly the others when `contains = False`.  (The documentation does not promise
+minimality.)  Behind it (`Proofs/CtorAC*.lean`): the insertion loop builds a trie of the
+prefixes of the patterns (`acTrie_spec`); the first BFS sets every failure link to the node of
+the longest proper suffix in the trie and makes the output chain non-empty iff a non-empty
+suffix is a pattern (`acFailBfs_spec`, with the BFS-order invariant "everything not deeper than
+the head of the queue is linked"); the goto function leads to the node of the longest suffix
+of `x·a` in the trie (`acGoto_spec`); the state after `w` is the node of the longest suffix of
+`w` that is a prefix of a pattern (`acState_spec`), absorbing in substring mode (`acSub_inv`). -/
+theorem C15_from_substrings (syms : List α) (hsyms : syms.Nodup) (pats : List (List α))
+    (contains sf : Bool) (hover : ∀ p ∈ pats, ∀ c ∈ p, c ∈ syms) (hsf : sf = true → [] ∉ pats) :
     Builds (fromSubstrings syms pats contains sf) syms
-      (fun w => (∃ p ∈ pats, if sf then p <:+ w else p <:+: w) ↔ contains = true)
+      (fun w => (∃ p ∈ pats, if sf then p <:+ w else p <:+: w) ↔ contains = true) := by
+  obtain ⟨nodes, paths, acc, hL, hTab, he⟩ := AC.fromSubstrings_eq syms pats contains sf hsyms hover
+  cases sf with
+  | true =>
+    refine builds_of syms he (AC.acSuffix_wf syms acc hL hTab contains) rfl (fun w => ?_)
+    rw [AC.acSuffix_accepts syms acc hL hTab contains (hsf rfl) w]
+    simp
+  | false =>
+    refine builds_of syms he (AC.acSub_wf syms acc hL hTab contains) rfl (fun w => ?_)
+    rw [AC.acSub_accepts syms acc hL hTab contains w]
+    simp
 
-/-- Proved part of `C15_from_substrings_full`: the statement on concrete instances with
-overlapping patterns where one pattern is a suffix / an infix of another (evaluation of the
-model by the kernel; all words up to length 3 are decided); the general proof — state after `w`
-= deepest trie node that is a suffix of `w` — is not done. -/
-theorem C15_from_substrings_partial :
-    (∀ w ∈ [[], [0], [1], [0, 1], [1, 1], [0, 0, 1], [0, 1, 0], [1, 0, 0], [0, 0, 0]],
-      verdict (fromSubstrings [0, 1] [[0, 0, 1], [0, 1], [1, 1]] true true) w =
-        some (decide (∃ p ∈ [[0, 0, 1], [0, 1], [1, 1]], p <:+ w))) ∧
-    (∀ w ∈ [[], [0], [1], [0, 1], [1, 0], [0, 1, 0], [1, 0, 1], [1, 1, 1], [0, 0, 0]],
-      verdict (fromSubstrings [0, 1] [[1, 0, 1], [0]] false false) w =
-        some (decide (¬ ∃ p ∈ [[1, 0, 1], [0]], p <:+: w))) := by
-  decide
+example : Builds (fromSubstrings ['a', 'b'] [['a', 'a', 'b'], ['a', 'b'], ['b', 'b']] true true) ['a', 'b']
+    (fun w => (∃ p ∈ [['a', 'a', 'b'], ['a', 'b'], ['b', 'b']], if true then p <:+ w else p <:+: w) ↔
+      true = true) :=
+  C15_from_substrings _ (by decide) _ _ _ (by decide) (by decide)
 
 /-- **Open finding F10, second half**: with the empty pattern in the set and suffix mode the
 result is wrong — the complement DFA for `{"", "cab"}` accepts `"c"` although every word ends
